@@ -7,7 +7,7 @@
    dist/(dist+1e-12) (theorems C11_distance_gradient_factor, C11_leaf_factor). *)
 From Coq Require Import Reals List ZArith Lra Lia.
 From Coquelicot Require Import Coquelicot.
-From MellonV Require Import ALists AKernels AKExpr AListsFacts AProfiles ADistThm AGradThm.
+From MellonV Require Import ALists AKernels AKExpr AListsFacts AProfiles ADistThm AGradThm AKPos AGradSyn.
 Import ListNotations.
 Open Scope R_scope.
 
@@ -83,6 +83,23 @@ Theorem C11_kgrad_correct : forall e x y c, length x = length y -> (c < length y
   is_derive (fun t => keval e x (upd y c t)) (nth c y 0) (kgrad_true e x y c).
 Proof. exact kgrad_correct. Qed.
 Print Assumptions C11_kgrad_correct.
+
+(* the same statement with a well-formedness premise that does not mention the points: wfs e n (thm/AKPos.v) is wfk with the
+   positivity of every Pow operand replaced by the syntactic kpos (every stationary leaf, sums, products, + c >= 0, * c > 0,
+   Pow), so the analytic gradient of such a tree is the true derivative at EVERY pair of points of width n *)
+Theorem C11_wfs_implies_wfk : forall e x y, length x = length y -> wfs e (length y) -> wfk e x y.
+Proof. exact wfs_wfk. Qed.
+Print Assumptions C11_wfs_implies_wfk.
+
+Theorem C11_kgrad_correct_all_points : forall e n, wfs e n -> forall x y c, length x = n -> length y = n -> (c < n)%nat ->
+  is_derive (fun t => keval e x (upd y c t)) (nth c y 0) (kgrad_true e x y c).
+Proof. exact kgrad_correct_all_points. Qed.
+Print Assumptions C11_kgrad_correct_all_points.
+
+Example C11_wfs_nonvacuous :
+  wfs (KMul (KPow (KAddC (KBase BExpQuad 2 (DInt (-1)%Z)) (1 / 2) (DList [0%Z; 2%Z])) (3 / 2) DNone)
+            (KBase (BRatQuad 3) 1 (DMask [true; false; true])) (DSlice None None None)) 3.
+Proof. exact wfs_example. Qed.
 
 Theorem C11_leaf_factor : forall b ls x y c, stationary b -> length x = length y ->
   base_kgrad dgrad_code b ls x y c = base_kgrad dgrad_true b ls x y c * (dist_pts x y / (dist_pts x y + 1 / 1000000000000)).
